@@ -64,6 +64,22 @@ CHECKS = {
                 text="On every path of the C05 interleaving exploration and the C17 tree/BFS the shared real Decoder is compared frame by frame with one solo real Decoder per endpoint that only sees that endpoint's frames; endpoint-less buffers (nullptr, short, TECMP) go to the shared decoder only.",
                 note="Purely differential; counts as in C05 + C17.",
                 technique="explicit-state exploration with a differential (projection) oracle on real decoder objects"),
+    "C02": dict(level="model_checking", design="4/C02",
+                text="Every way the decoders' control flow can be steered is enumerated: ~120 well-formed CMP and TECMP seed frames x every truncation x every single-byte and adjacent-byte-pair corruption over boundary value sets x extensions up to 64 KiB x 4 decoder pre-states, a TECMP sweep over all 256 message types x data types x payload lengths x length bytes, and all ordered pairs (thorough: triples) of a sub-corpus on one decoder. Each execution runs the real code under ASan/UBSan in a fork sandbox with a watchdog; input unchanged, <= len/12 packets, packets non-null with payload, and a digest of every getter, byte and typed accessor must be unchanged after the input is freed, ten more frames are decoded and the decoder is destroyed.",
+                note="Not all byte strings: exhaustive over the control-relevant field space of the seeds (the decoder only copies other bytes). UBSan alignment/vptr/nonnull-attribute sub-checks are off on purpose.",
+                technique="bounded exhaustive enumeration of inputs x decoder histories executed on the real code under sanitizers (fork sandbox, watchdog)"),
+    "C03": dict(level="model_checking", design="4/C03",
+                text="Per typed payload class every buffer length 0..header+8 (+2 larger) x 3 backgrounds x every inner length field over boundary value sets (full products; 6^5 section-length product for the capture-module class): if the class validator accepts, a payload is built from an exact-size heap copy, the copy is freed, every const accessor is called under ASan and every reported view is checked against the payload's own bytes; the same buffer also goes through a real Decoder, and message-level isValidPacket => Packet constructor is swept.",
+                note="View bounds are checked by harness code, raw reads by ASan redzones on exact-size allocations.",
+                technique="bounded exhaustive enumeration of inputs on the real validators/accessors under ASan with an independent view-bounds oracle"),
+    "C04": dict(level="model_checking", design="4/C04",
+                text="Frames are built from field values by an independent builder (180 frame headers x 0/1 message, all ordered pairs of a 57-message alphabet, all triples of a 14-message sub-alphabet; consistent and deliberately inconsistent inner lengths, bus-error flags, prefix-ending messages), each as is, cut at every byte offset and zero-padded, on a fresh real Decoder and on three decoders with history; returned packets are compared with an independent parse using three-valued validity (must-valid / must-invalid / unconstrained).",
+                note="Expected getter values are the builder's field values, so symmetric endianness/offset errors do not cancel.",
+                technique="bounded exhaustive enumeration of inputs x decoder pre-states against an independent reference parser"),
+    "C15": dict(level="model_checking", design="4/C15",
+                text="TECMP frames from an independent builder: CAN/CAN-FD data length 0..64 x arbitration ids x CRC trailers, LIN x all 256 pids, capture-module status x serials x version bytes, bus status with 0..40 entries, each kind with inner lengths inconsistent with the buffer, and all 256 message types x data types x payload lengths x length bytes (thorough: all 65536 data types); decoded packets are compared with an independent conversion, unsupported/inconsistent messages must yield nothing.",
+                note="CAN CRC values, frames with bytes after the declared payload, partial bus-status entries and status frames with data type FF00 are outside what the property fixes and are only checked for memory safety (C02).",
+                technique="bounded exhaustive enumeration of inputs against an independent reference conversion"),
 }
 
 PENDING_REASON = "check under construction (see DESIGN.md section 4); will be claimed once its engine is committed"
